@@ -211,6 +211,33 @@ def _auxv_is_complete(ctx, truth):
             "is_complete() is true although something is still missing (or false although nothing is): %s — try_filling_missing_info() returns early on `complete`, so the missing value is never read from /proc/<pid>/auxv" % bad[:3], b[0])
 
 
+def _byte_closure_is_zero(ctx, truth, parent, what):
+    cl = [b for b in ctx.prog.bodies if b.kind == "Closure" and b.parent == parent and (b.locals[0].get("ty") == "bool") and "u8" in (b.locals[2].get("ty") or "")]
+    if len(cl) != 1:
+        return None, "anchor missing (%d byte predicates in %s)" % (len(cl), parent.split("::")[-1])
+    c = cl[0]
+    bad = []
+    for v in (0, 1, 0x20, 0x7f, 0x80, 0xff):
+        def leaf(e, v=v):
+            e = core(e)
+            if e == ("param", 2) or (e[0] in ("deref", "proj", "field") and len(e) > 1 and e[1] == ("param", 2)):
+                return (v, "u8")
+            return None
+        if truth(c, leaf) != (v == 0):
+            bad.append(v)
+    return (not bad, what, "the byte predicate is not `== 0`: wrong for %s" % bad, c)
+
+
+@spec("dso-name-terminator")
+def _dso_nul(ctx, truth):
+    return _byte_closure_is_zero(ctx, truth, "linux::dso_debug::write_dso_debug_stream", "a loaded object's name ends at the first NUL byte (6 byte values)")
+
+
+@spec("zero-id-byte")
+def _zero_id(ctx, truth):
+    return _byte_closure_is_zero(ctx, truth, "linux::sections::mappings::write", "a build id is 'all zero' iff every byte equals 0 (6 byte values)")
+
+
 def run(ctx, prop, names):
     from rules import c06
     truth = lambda body, leaf: c06.bool_fn_truth(ctx.prog, body, leaf)
